@@ -77,6 +77,18 @@ var universe = []objDef{
   endpoints:
   - {address: 10.20.0.1, locality: region1/zone1, labels: {app: a, version: v1, security.istio.io/tlsMode: istio}}
 `,
+		// 4: targetPort and per-endpoint port overrides
+		meta("ServiceEntry", netAPI, "se-a", "ns1") + `spec:
+  hosts: [a.example.com]
+  addresses: [10.10.0.1]
+  ports:
+  - {number: 80, name: http, protocol: HTTP, targetPort: 8080}
+  resolution: STATIC
+  location: MESH_INTERNAL
+  endpoints:
+  - {address: 10.20.0.1, locality: region1/zone1, labels: {app: a, version: v1, security.istio.io/tlsMode: istio}}
+  - {address: 10.20.0.2, locality: region2/zone1, labels: {app: a, version: v2, security.istio.io/tlsMode: istio}, ports: {http: 8081}}
+`,
 	}},
 	{ID: "se-b", Variants: []string{
 		meta("ServiceEntry", netAPI, "se-b", "ns2") + `spec:
@@ -244,6 +256,13 @@ var universe = []objDef{
   labels: {app: other}
   serviceAccount: we-sa2
 `,
+		// 3: on ANOTHER NETWORK: reachable for a proxy of network net1 only through a network gateway (object k-nwgw)
+		meta("WorkloadEntry", netAPI, "we-1", "ns1") + `spec:
+  address: 10.30.0.4
+  labels: {app: we}
+  network: net2
+  serviceAccount: we-sa
+`,
 	}},
 	{ID: "vs-a", Variants: []string{
 		meta("VirtualService", netAPI, "vs-a", "ns1") + `spec:
@@ -293,6 +312,17 @@ var universe = []objDef{
     - destination: {host: b.example.com}
   - route:
     - destination: {host: a.example.com, subset: v2}
+`,
+		// 2: a root VirtualService that DELEGATES (object vs-del)
+		meta("VirtualService", netAPI, "vs-gw", "ns1") + `spec:
+  hosts: [gw.example.com]
+  gateways: [istio-system/gw]
+  http:
+  - match:
+    - uri: {prefix: /d}
+    delegate: {name: vs-del, namespace: ns1}
+  - route:
+    - destination: {host: a.example.com}
 `,
 	}},
 	{ID: "vs-tls", Variants: []string{
@@ -459,6 +489,16 @@ var universe = []objDef{
   - port: {number: 15443, name: tls-auto, protocol: TLS}
     hosts: ["*.local"]
     tls: {mode: AUTO_PASSTHROUGH}
+`,
+		// 3: TLS termination with a credential the router fetches by SDS (Secret gw-cred, object k-secret)
+		meta("Gateway", netAPI, "gw", "istio-system") + `spec:
+  selector: {istio: ingressgateway}
+  servers:
+  - port: {number: 80, name: http, protocol: HTTP}
+    hosts: ["gw.example.com"]
+  - port: {number: 443, name: https, protocol: HTTPS}
+    hosts: ["gw.example.com"]
+    tls: {mode: SIMPLE, credentialName: gw-cred}
 `,
 	}},
 	{ID: "pa-mesh", Variants: []string{
@@ -718,6 +758,53 @@ var universe = []objDef{
   environmentVariables: {SOME_VAR: "1"}
 `,
 	}},
+	// the delegate of vs-gw variant 2 (no hosts, no gateways)
+	{ID: "vs-del", Variants: []string{
+		meta("VirtualService", netAPI, "vs-del", "ns1") + `spec:
+  http:
+  - route:
+    - destination: {host: b.example.com}
+`,
+		meta("VirtualService", netAPI, "vs-del", "ns1") + `spec:
+  http:
+  - match:
+    - uri: {prefix: /d/x}
+    rewrite: {uri: /x}
+    route:
+    - destination: {host: a.example.com, subset: v1}
+  - route:
+    - destination: {host: b.example.com}
+`,
+	}},
+	// the WorkloadEntry BEHIND proxy sidecar-a (same address): its labels become the proxy's labels; 1 = relabelled
+	// (pushWorkloadUpdates -> ProxyUpdate; Sidecar / policy selectors on app=a stop matching)
+	{ID: "we-a", Variants: []string{
+		meta("WorkloadEntry", netAPI, "we-a", "ns1") + `spec:
+  address: 10.20.0.1
+  labels: {app: a, version: v1}
+  serviceAccount: a
+`,
+		meta("WorkloadEntry", netAPI, "we-a", "ns1") + `spec:
+  address: 10.20.0.1
+  labels: {app: a2, version: v1}
+  serviceAccount: a
+`,
+	}},
+	{ID: "wg-a", Variants: []string{
+		meta("WorkloadGroup", netAPI, "wg-a", "ns1") + `spec:
+  metadata:
+    labels: {app: we}
+  template:
+    serviceAccount: we-sa
+`,
+		meta("WorkloadGroup", netAPI, "wg-a", "ns1") + `spec:
+  metadata:
+    labels: {app: we, extra: "1"}
+  template:
+    serviceAccount: we-sa
+    network: net2
+`,
+	}},
 }
 
 var universeIndex = func() map[string]*objDef {
@@ -742,8 +829,20 @@ func render(id string, v int) config.Config {
 		panic(fmt.Sprintf("grammar: %s/%d does not parse: %v", id, v, err))
 	}
 	c := cfgs[0]
-	c.CreationTimestamp = baseTime.Add(time.Duration(objIndex(id)) * time.Minute)
+	c.CreationTimestamp = baseTime.Add(time.Duration(ageRank(id)) * time.Minute)
 	return c
+}
+
+// ageSalt permutes the age order of the config objects in the current history (case flag `age=<n>`): which of two
+// conflicting objects is the older one (and wins) varies; the cold-started server renders the same timestamps.
+var ageSalt int
+
+func ageRank(id string) int {
+	i := objIndex(id)
+	if ageSalt == 0 {
+		return i
+	}
+	return (i + 1) * (2*ageSalt + 1) % 211 // 211 is prime and larger than the number of objects
 }
 
 // objIndex: a fixed rank per object of the grammar (creation timestamps are derived from it)
@@ -804,7 +903,7 @@ func (w world) configs() []config.Config {
 	sort.Strings(ids)
 	var out []config.Config
 	for _, id := range ids {
-		if isKube(id) || isGwapi(id) || isMesh(id) {
+		if isKube(id) || isGwapi(id) || isMesh(id) || isSecret(id) || isIngress(id) {
 			continue
 		}
 		out = append(out, render(id, w[id]))
